@@ -136,7 +136,9 @@ fn random_pool(which: usize) -> (&'static str, Vec<Value>) {
         0 => ("rand-int", (-4..=6).map(i).chain([i(100), i(-100), i(i64::MAX), i(i64::MIN)]).collect()),
         1 => (
             "rand-str",
-            ["", "a", "A", "b", "B", "ab", "aB", "Ab", "z", "10", "9", "é", "É", "Жук", "жук", "a b"].iter().map(|t| s(t)).collect(),
+            ["", "a", "A", "b", "B", "ab", "aB", "Ab", "z", "10", "9", "é", "É", "Жук", "жук", "a b",
+             // strings that spell special numbers are strings like any other
+             "nan", "NaN", "Nan", "inf", "-inf", "Infinity", "1e3", "0x10", "-0", "+1", "true", "nil"].iter().map(|t| s(t)).collect(),
         ),
         2 => ("rand-int-str", (0..=5).map(i).chain(["a", "b", "c", "0", "3"].iter().map(|t| s(t))).collect()),
         3 => (
@@ -253,6 +255,13 @@ pub fn run(ctx: &mut Ctx) {
         for_all_arrays(&objs, 3, |a| g.objects_battery("exh-bigint-key", a));
     }
     for_all_arrays(&pool_str, if thorough { 5 } else { 4 }, |a| g.scalars_battery("exh-str", a, true));
+    // strings that spell numbers, special numbers and keywords are ordered as strings
+    let pool_numstr = vec![s("nan"), s("NaN"), s("Alice"), s("bob"), s("inf"), s("10"), s("9"), s("1e3"), s("true")];
+    for_all_arrays(&pool_numstr, 3, |a| g.scalars_battery("exh-numstr", a, true));
+    {
+        let objs: Vec<Value> = ["Alice", "Nan", "Bob", "nan"].iter().enumerate().map(|(k, n)| obj(&[("p", s(n)), ("q", i(k as i64))])).collect();
+        for_all_arrays(&objs, 3, |a| g.objects_battery("exh-numstr-key", a));
+    }
     for_all_arrays(&pool_mixed, if thorough { 5 } else { 4 }, |a| g.scalars_battery("exh-mixed", a, false));
 
     // ---- objects with a present / missing / nil / false property ----
